@@ -1,0 +1,36 @@
+// Copyright 2020-2025 Buf Technologies, Inc.
+//
+// Licensed under the Apache License, Version 2.0 (the "License");
+// you may not use this file except in compliance with the License.
+// You may obtain a copy of the License at
+//
+//      http://www.apache.org/licenses/LICENSE-2.0
+//
+// Unless required by applicable law or agreed to in writing, software
+// distributed under the License is distributed on an "AS IS" BASIS,
+// WITHOUT WARRANTIES OR CONDITIONS OF ANY KIND, either express or implied.
+// See the License for the specific language governing permissions and
+// limitations under the License.
+
+//go:build verif
+
+package verifhook
+
+import "sync/atomic"
+
+var handler atomic.Value // of func(string)
+
+// SetHandler installs the function called at every hook point (nil to remove).
+func SetHandler(f func(point string)) {
+	if f == nil {
+		f = func(string) {}
+	}
+	handler.Store(f)
+}
+
+// Hit calls the installed handler with the name of the hook point.
+func Hit(point string) {
+	if f, ok := handler.Load().(func(string)); ok && f != nil {
+		f(point)
+	}
+}
